@@ -8,7 +8,8 @@ use serde::{Deserialize, Serialize};
 use serde_json::Value;
 use std::collections::BTreeSet;
 
-const POOL: &[&str] = &["t1", "t2", "t3", "social", "x"];
+// tag names are compared verbatim (case matters): "T1" and "t1" are different tags
+const POOL: &[&str] = &["t1", "t2", "t3", "social", "x", "T1", "Social-Embeds"];
 
 #[derive(Clone, Debug, Serialize, Deserialize, PartialEq)]
 pub enum Kind {
@@ -378,12 +379,12 @@ pub fn decode_shared(t: &mut Tape) -> SharedCase {
         };
         let size = if big { [2usize, 63, 64, 65, 65, 66, 129][t.pick(7)] } else { 1 + t.pick(3) };
         let toks = if big { big_toks } else { (t.pick(ntok) as u8, t.pick(ntok) as u8) };
-        let twin = if !big && t.chance(1, 3) { Some(t.choose(&POOL[..4]).to_string()) } else { None };
+        let twin = if !big && t.chance(1, 3) { Some(t.choose(&POOL[..7]).to_string()) } else { None };
         // 1 group in 6 is untagged ("-"), 1 in 6 carries the empty tag
         let tag = match t.pick(6) {
             0 => "-".to_string(),
             1 => String::new(),
-            _ => t.choose(&POOL[..3]).to_string(),
+            _ => t.choose(&POOL[..6]).to_string(),
         };
         groups.push(Group { kind, tag, size, toks, regexy: if big { false } else { t.chance(1, 2) }, twin });
     }
@@ -439,7 +440,7 @@ pub fn decode(t: &mut Tape) -> TagCase {
 }
 
 pub fn check(ctx: &mut Ctx) {
-    ctx.rule = "1-6 tagged rules, each of kind blocking / exception (with an untagged blocker behind it) / important (with an untagged exception it must beat) / csp, 4 pattern shapes, tags from a pool of 5, optimisation on/off; history of 1-8 use/enable/disable (duplicates, unknown tags, empty sets) and reload ops (bytes serialized by a sibling engine holding a different enabled set; 1 in 3 a FAILING load of truncated bytes, after which nothing may have changed). After every op each rule's private probe request and tag_exists over the pool (+ \"\" and an unknown tag) are compared with a set model. shared: 2-7 groups of tagged blocking / exception / important rules whose patterns share tokens from a pool of 2-4 (plain or '*' patterns, the per-rule suffix is never a token; 1 group in 3 doubles every rule with a same-pattern twin under another tag, so a probe is active when either tag is enabled; 1 group in 6 is untagged and 1 in 6 carries the empty tag `tag=`, which op sets may enable), so bucket membership and optimiser fusion depend on the enabled set; 1 in 30 cases uses 2-3 groups of 2/63/64/65/66/129 rules in one bucket; same histories and set model. Non-trivial = at least two set-changing ops and a rule whose activity flips.".into();
+    ctx.rule = "1-6 tagged rules, each of kind blocking / exception (with an untagged blocker behind it) / important (with an untagged exception it must beat) / csp, 4 pattern shapes, tags from a pool of 7 (two of them differing from others only in letter case), optimisation on/off; history of 1-8 use/enable/disable (duplicates, unknown tags, empty sets) and reload ops (bytes serialized by a sibling engine holding a different enabled set; 1 in 3 a FAILING load of truncated bytes, after which nothing may have changed). After every op each rule's private probe request and tag_exists over the pool (+ \"\" and an unknown tag) are compared with a set model. shared: 2-7 groups of tagged blocking / exception / important rules whose patterns share tokens from a pool of 2-4 (plain or '*' patterns, the per-rule suffix is never a token; 1 group in 3 doubles every rule with a same-pattern twin under another tag, so a probe is active when either tag is enabled; 1 group in 6 is untagged and 1 in 6 carries the empty tag `tag=`, which op sets may enable), so bucket membership and optimiser fusion depend on the enabled set; 1 in 30 cases uses 2-3 groups of 2/63/64/65/66/129 rules in one bucket; same histories and set model. Non-trivial = at least two set-changing ops and a rule whose activity flips.".into();
     ctx.assumptions = vec!["tag+redirect, tag+removeparam and tag+generichide are documented as unsupported and are not generated".into()];
     let n = ctx.tier.pick(120_000, 2_000_000);
     drive(ctx, "history", n, 200, &decode, &check_case);
